@@ -471,6 +471,9 @@ def moment_combine(
         else:
             mu = divide(total, n, dtype=dtype)
             inner_term = divide(totals, ns, dtype=dtype) - mu
+    # An empty partial (n == 0) contributes nothing; without this its 0/0 mean
+    # turns the combined moment into NaN (moment_agg has the same guard).
+    inner_term = np.where(ns == 0, 0, inner_term)
 
     xs = [_moment_helper(Ms, ns, inner_term, o, sum, axis, kwargs) for o in range(2, order + 1)]
     M = np.stack(xs, axis=-1)
